@@ -41,6 +41,7 @@ Pop(t) == [stack EXCEPT ![t] = SubSeq(@, 1, Len(@) - 1)]
 Expected(t, v) ==
   IF Len(stack[t]) >= 2 THEN v + 1                      \* nested (swap! b + 1) inside an update function
   ELSE CASE opcur[t].op = "swapinc" -> v + 1
+         [] opcur[t].op = "swapflip" -> IF v < 1000 THEN v + 1000 ELSE v - 1000     \* same elements, other kind (= but distinguishable)
          [] opcur[t].op \in {"swapaddother", "swapaddself"} -> v + lastread[t]
          [] opcur[t].op = "swapswapother" -> v + 1
          [] OTHER -> -12345
@@ -80,7 +81,7 @@ Step ==
      ELSE IF e.ev = "res" THEN
        IF e.op = "deref" /\ e.val # lastread[t] THEN Reject(e, "deref returned something else than it read")
        ELSE IF e.op = "reset" /\ e.val # opcur[t].val THEN Reject(e, "reset! returned something else than its argument")
-       ELSE IF e.op \in {"swapinc", "swapaddother", "swapaddself", "swapswapother"} /\ (e.val # lastset[t] \/ stack[t] # <<>>)
+       ELSE IF e.op \in {"swapinc", "swapflip", "swapaddother", "swapaddself", "swapswapother"} /\ (e.val # lastset[t] \/ stack[t] # <<>>)
             THEN Reject(e, "swap! returned something else than it installed")
        ELSE IF e.op = "swapfail" /\ e.val # -1 THEN Reject(e, "a failing update function did not make swap! fail")
        ELSE /\ stack' = [stack EXCEPT ![t] = <<>>]      \* a failed swap! leaves its snapshot unused
